@@ -365,7 +365,7 @@ def minimise(check, case: dict, violation: dict, budget_s=60.0):
         steps += 1
         try:
             r = in_fork(lambda: check.execute(c), timeout=check.run_timeout_s) if check.isolate else check.execute(c)
-        except HarnessError:
+        except Exception:  # noqa: BLE001  (a shrunk case may be nonsense for the harness: not a failure)
             return None
         v = r.get("violation")
         if v and vclass(v) == want:
